@@ -373,18 +373,19 @@ fn run_case(c: &Case, stats: &mut Stats) -> Vec<(String, String)> {
                                         if op.ok() {
                                             stats.files_created += 1;
                                             // (e)
-                                            for (older, ep, _) in created.iter().filter(|(_, ep, _)| *ep == epoch) {
-                                                let _ = ep;
+                                            for (older, _, older_reading) in created.iter().filter(|(_, ep, _)| *ep == epoch) {
                                                 stats.name_pairs_checked += 1;
                                                 if older.as_str() >= name.as_str() {
-                                                    let (op_, oc, _) = parse_member(older, &cfg.prefix, &cfg.ext).unwrap();
-                                                    let (np, nc, _) = parse_member(&name, &cfg.prefix, &cfg.ext).unwrap();
-                                                    let sig = if op_ == np && oc == nc {
+                                                    // the known finding is exactly: both files were created in the same
+                                                    // period and the same millisecond of it (by the clock, not by the names)
+                                                    let a = period_of(cfg.roll, *older_reading);
+                                                    let b = period_of(cfg.roll, reading);
+                                                    let sig = if a == b {
                                                         "C11:name-order:same-period-same-millis".to_string()
                                                     } else {
-                                                        format!("C11:name-order:newer-sorts-lower:{}", if op_ == np { "same-period" } else { "different-period" })
+                                                        format!("C11:name-order:newer-sorts-lower:{}", if a.0 == b.0 { "same-period" } else { "different-period" })
                                                     };
-                                                    v.push((sig, format!("{}: newly created {:?} does not sort after the older {:?} although the clock never went backwards in between", when, name, older)));
+                                                    v.push((sig, format!("{}: newly created {:?} does not sort after the older {:?} (created at reading {}) although the clock never went backwards in between", when, name, older, older_reading)));
                                                 }
                                             }
                                             created.push((name.clone(), epoch, reading));
@@ -405,6 +406,8 @@ fn run_case(c: &Case, stats: &mut Stats) -> Vec<(String, String)> {
                                                 ));
                                             }
                                             members.remove(&name);
+                                            // the ordering claim is about files that exist
+                                            created.retain(|(n, _, _)| *n != name);
                                         } else {
                                             listing_or_delete_failed = true;
                                             undeletable.insert(name.clone());
@@ -584,7 +587,7 @@ fn main() {
         r.nontrivial(&"replay");
         std::process::exit(r.finish());
     }
-    let n = args.n(20_000, 600_000);
+    let n = args.n(200_000, 6_000_000);
     r.set("cases", json!(n));
     par_cases(&mut r, &args, n, |i, r| evaluate(r, seed, i));
     std::process::exit(r.finish());
